@@ -19,11 +19,14 @@ structure Att where
   /-- the client's own region object designated a connection to another server when this request
   arrived (it had already learnt a newer location) -/
   stale : Bool := false
+  /-- the serialised request names another region than the one the call was routed by -/
+  wrongSpec : Bool := false
 
 def parseAtt (s : String) : Option Att :=
   match s.splitOn "." with
-  | [k, a, h, i, o] => (a.toNat?).map (fun a => ⟨k, a, h = "1", i = "1", o, false⟩)
-  | [k, a, h, i, o, "stale"] => (a.toNat?).map (fun a => ⟨k, a, h = "1", i = "1", o, true⟩)
+  | [k, a, h, i, o] => (a.toNat?).map (fun a => ⟨k, a, h = "1", i = "1", o, false, false⟩)
+  | [k, a, h, i, o, "stale"] => (a.toNat?).map (fun a => ⟨k, a, h = "1", i = "1", o, true, false⟩)
+  | [k, a, h, i, o, "wrongspec"] => (a.toNat?).map (fun a => ⟨k, a, h = "1", i = "1", o, false, true⟩)
   | _ => none
 
 def parseAtts (s : String) : Option (List Att) :=
@@ -38,6 +41,9 @@ def isUser (a : Att) : Bool := a.kind = "get" || a.kind = "mutate"
 def judgeReq (expect result : String) (atts : List Att) : Option String :=
   match atts.find? (fun a => a.hosted && !a.inRange) with
   | some a => some s!"SPEC key=key-sent-to-region-not-containing-it kind={a.kind}"
+  | none =>
+  match atts.find? (fun a => a.wrongSpec) with
+  | some a => some s!"SPEC key=request-names-another-region-than-it-is-routed-by kind={a.kind} server={a.addr}"
   | none =>
   match atts.find? (fun a => isUser a && a.stale) with
   | some a => some s!"SPEC key=request-not-routed-from-the-known-location kind={a.kind} server={a.addr}"
@@ -175,7 +181,7 @@ def handle (model : String) : List String → String
       else if lat > 250000 then s!"SPEC key=cancel-slow-{state}-{api}-{mode} latency_us={lat}"
       else
         -- a batch returns with the unfinished calls marked failed (any error of their own)
-        let okErr := res = "ctx" || (api = "batch" && (res.splitOn "+").all (fun r => r ≠ "blocked"))
+        let okErr := res = "ctx" || (api.startsWith "batch" && (res.splitOn "+").all (fun r => r ≠ "blocked"))
         if okErr then s!"OK tags=cancelled,{state},{api},{mode}"
         else s!"SPEC key=cancel-wrong-error-{state}-{api} result={res}"
   | ["batchown", lat, r0, r1, _ok] =>
